@@ -1,2 +1,177 @@
-(* Model/Smtext.v — executable model; no proofs here. *)
+(* Model/Smtext.v — formats/smtext (ReadNCBI, extractSingleChar) and the
+   SubstitutionMatrix methods Symmetrical and GoString of package align.
+   Executable model; no proofs here.
+
+   Scores are arbitrary float64 values: they are the abstract [F] of Base.v
+   (identified by their canonical text); strconv.ParseFloat enters through the
+   per-case [foracle].  A Go map[[2]byte]float64 is an association list with
+   unique keys; [mset] overwrites in place, as a map assignment does.        *)
 From Bio Require Import Base.
+
+Definition key := (byte * byte)%type.
+Definition smatrix := list (key * F).
+
+Definition GAP : byte := 255.                        (* align.Gap *)
+
+Definition keqb (k1 k2 : key) : bool := (fst k1 =? fst k2) && (snd k1 =? snd k2).
+
+(* v, ok := m[k] *)
+Fixpoint mlookup (k : key) (m : smatrix) : option F :=
+  match m with
+  | [] => None
+  | (k', x) :: r => if keqb k k' then Some x else mlookup k r
+  end.
+
+(* m[k] = x *)
+Fixpoint mset (k : key) (x : F) (m : smatrix) : smatrix :=
+  match m with
+  | [] => [(k, x)]
+  | (k', y) :: r => if keqb k k' then (k, x) :: r else (k', y) :: mset k x r
+  end.
+
+Definition flip (k : key) : key := (snd k, fst k).
+
+(* ---- regexp `\S+`, FindAllString(row, -1) -------------------------------- *)
+(* Go's (RE2) \s is [\t\n\f\r ]: VT (11) is not in it, nor is any byte >= 0x80
+   (an invalid-UTF-8 byte is matched as U+FFFD, a valid multi-byte rune is
+   never a space): the matches are the maximal runs of bytes outside the set. *)
+Definition is_space (b : byte) : bool :=
+  (b =? 9) || (b =? 10) || (b =? 12) || (b =? 13) || (b =? 32).
+
+(* (the non-space run the string starts with, the later runs) *)
+Fixpoint fields_go (s : bytes) : bytes * list bytes :=
+  match s with
+  | [] => ([], [])
+  | c :: r =>
+    let (cur, fs) := fields_go r in
+    if is_space c then ([], match cur with [] => fs | _ :: _ => cur :: fs end)
+    else (c :: cur, fs)
+  end.
+
+Definition fields (s : bytes) : list bytes :=
+  let (cur, fs) := fields_go s in
+  match cur with [] => fs | _ :: _ => cur :: fs end.
+
+(* ---- extractSingleChar ---------------------------------------------------- *)
+Definition extract_single_char (s : bytes) : outcome byte :=
+  match s with
+  | [c] => if c =? 42 then Ok GAP else Ok c        (* "*" -> align.Gap *)
+  | _ => Err                                         (* len(s) != 1 *)
+  end.
+
+(* ---- ReadNCBI --------------------------------------------------------------- *)
+(* bufio.Scanner with the default buffer: a line is delivered only if it fits,
+   together with its LF, in MaxScanTokenSize = 65536 bytes; a line (LF
+   excluded, CR included) of 65536 or more bytes, terminated or not, makes
+   Scan return false with Err() = ErrTooLong, whatever follows.             *)
+Definition too_long (p : bytes) : bool := 65536 <=? N.of_nat (length p).
+
+Definition line_items (s : bytes) : list (item bytes) :=
+  map (fun p => if too_long p then ErrItem else Rec (drop_cr p))
+      (lines_tail (split_on LF s)).
+
+(* the header row: for _, char := range charStrs { b, err := extractSingleChar(char) ... append } *)
+Fixpoint header_chars (fs : list bytes) : outcome bytes :=
+  match fs with
+  | [] => Ok []
+  | f :: r =>
+    obind (extract_single_char f) (fun b =>
+    obind (header_chars r) (fun bs => Ok (b :: bs)))
+  end.
+
+(* for i, val := range valStrs[1:] { x, err := ParseFloat(val); m[{c, chars[i]}] = x } *)
+Fixpoint set_row (o : foracle) (c : byte) (chars : bytes) (vals : list bytes)
+                 (m : smatrix) {struct vals} : outcome smatrix :=
+  match vals with
+  | [] => Ok m
+  | v :: vs =>
+    match parseF o v with
+    | None => Err
+    | Some x =>
+      match chars with
+      | [] => Panic            (* chars[i] out of range; excluded by the length check *)
+      | d :: ds => set_row o c ds vs (mset (c, d) x m)
+      end
+    end
+  end.
+
+Definition read_row (o : foracle) (chars : bytes) (fs : list bytes) (m : smatrix)
+  : outcome smatrix :=
+  if negb (Nat.eqb (length fs) (S (length chars))) then Err else
+  match fs with
+  | [] => Panic                (* valStrs[0]; excluded by the length check *)
+  | f0 :: vals => obind (extract_single_char f0) (fun c => set_row o c chars vals m)
+  end.
+
+(* row == "" || row[0] == '#' *)
+Definition skip_line (l : bytes) : bool :=
+  match l with [] => true | c :: _ => c =? 35 end.
+
+(* The loop state is (m, chars); `chars == nil` is `chars = []`: a header line
+   without any field leaves chars nil and the next line is a header again.  *)
+Definition rstate := (smatrix * bytes)%type.
+
+Definition read_line (o : foracle) (l : bytes) (s : rstate) : outcome rstate :=
+  if skip_line l then Ok s else
+  match snd s with
+  | [] => obind (header_chars (fields l)) (fun cs => Ok (fst s, cs))
+  | _ :: _ => obind (read_row o (snd s) (fields l) (fst s)) (fun m' => Ok (m', snd s))
+  end.
+
+Definition read_step (o : foracle) (acc : outcome rstate) (it : item bytes) : outcome rstate :=
+  obind acc (fun s =>
+    match it with
+    | Rec l => read_line o l s
+    | ErrItem => Err           (* Scan() = false, sc.Err() = ErrTooLong *)
+    end).
+
+Definition read_ncbi (o : foracle) (s : bytes) (t : term) : outcome smatrix :=
+  match fold_left (read_step o) (line_items s) (Ok ([], [])) with
+  | Ok (m, _) => match t with TEOF => Ok m | TErr => Err end   (* sc.Err() *)
+  | Err => Err
+  | Panic => Panic
+  end.
+
+(* ---- float64 comparison on canonical texts ------------------------------- *)
+Definition is_nanF (x : F) : bool := beqb x [78; 97; 78].            (* "NaN" *)
+(* Go's == : NaN differs from everything, 0 == -0, otherwise distinct
+   canonical texts are distinct values *)
+Definition feq (x y : F) : bool :=
+  if is_nanF x || is_nanF y then false
+  else beqb x y || (is_zeroF x && is_zeroF y).
+
+(* ---- Symmetrical ------------------------------------------------------------ *)
+(* The list order stands for the (unspecified) iteration order of the map. *)
+Definition sym_step (m : smatrix) (acc : outcome smatrix) (e : key * F) : outcome smatrix :=
+  obind acc (fun res =>
+    let k := fst e in
+    let v := snd e in
+    let res1 := mset k v res in
+    if negb (fst k =? snd k) then
+      match mlookup (flip k) m with
+      | Some v2 => if negb (feq v2 v) then Panic else Ok (mset (flip k) v res1)
+      | None => Ok (mset (flip k) v res1)
+      end
+    else Ok (mset (flip k) v res1)).
+
+Definition symmetrical (m : smatrix) : outcome smatrix :=
+  fold_left (sym_step m) m (Ok []).
+
+(* ---- GoString --------------------------------------------------------------- *)
+(* bytes.Compare on the two-byte keys *)
+Definition key_ltb (k1 k2 : key) : bool :=
+  (fst k1 <? fst k2) || ((fst k1 =? fst k2) && (snd k1 <? snd k2)).
+
+Fixpoint insert_entry (e : key * F) (l : smatrix) : smatrix :=
+  match l with
+  | [] => [e]
+  | h :: t => if key_ltb (fst h) (fst e) then h :: insert_entry e t else e :: l
+  end.
+
+(* the (key, score) lines GoString prints, in order *)
+Definition go_string_entries (m : smatrix) : smatrix :=
+  fold_right insert_entry [] m.
+
+(* building a matrix from a list of assignments (composite literal / decoding) *)
+Definition matrix_of_entries (es : list (key * F)) : smatrix :=
+  fold_left (fun m e => mset (fst e) (snd e) m) es [].
